@@ -278,7 +278,12 @@ func (c *Ctx) walletBodyLiterals() {
 			continue
 		}
 		okv := false
-		for _, m := range literalFields(f, "W5SendMessageAction") {
+		var lits []map[string][]ssa.Value
+		// the conversion loop may sit in the builder or in an unexported helper the builders share
+		for _, g := range c.helperClosure(f, 2, func(h *ssa.Function) bool { return plainHelper(h) == nil }) {
+			lits = append(lits, literalFields(g, "W5SendMessageAction")...)
+		}
+		for _, m := range lits {
 			msg := vals2paths(m["Msg"])
 			mode := vals2paths(m["Mode"])
 			okv = strings.HasSuffix(msg, ".Message") && strings.HasSuffix(mode, ".Mode") && strings.TrimSuffix(msg, ".Message") == strings.TrimSuffix(mode, ".Mode")
@@ -617,13 +622,16 @@ func (c *Ctx) payloadCodecs() {
 			okOrder = nr[0].Block().Dominates(um[0].Block()) && (nr[0].Block() != um[0].Block() || before(nr[0], um[0]))
 		}
 		// the reader's per-node bit count constant equals the width of W5SendMessageAction's bit fields
+		// (established where the action is decoded: "bits == 40" as a switch case, an if, or a rejected "bits != 40")
 		okBits := false
-		for _, b := range r.Blocks {
-			if iff := lastIf(b); iff != nil {
-				if bo, ok := iff.Cond.(*ssa.BinOp); ok && bo.Op.String() == "==" {
-					if k, ok := constInt(bo.Y); ok && k == 40 && derivesFrom(bo.X, callResult(modPath+"/boc.Cell.BitsAvailableForRead"), false) {
-						okBits = true
-					}
+		if len(um) == 1 {
+			for _, ft := range factsAt(r, um[0].Block()) {
+				bo, ok := ft.Cond.(*ssa.BinOp)
+				if !ok || (bo.Op != token.EQL && bo.Op != token.NEQ) || (bo.Op == token.EQL) != ft.Truth {
+					continue
+				}
+				if k, ok := constInt(bo.Y); ok && k == 40 && derivesFrom(bo.X, callResult(modPath+"/boc.Cell.BitsAvailableForRead"), false) {
+					okBits = true
 				}
 			}
 		}
@@ -772,8 +780,16 @@ func (c *Ctx) walletConstants() {
 	if f := c.fn("wallet", "genContextID"); f != nil {
 		var ws []string
 		for _, cl := range callsTo(f, bocPath+".Cell.WriteUint") {
-			k, _ := constInt(cl.Call.Args[2])
-			ws = append(ws, fmt.Sprint(k))
+			if k, ok := constInt(cl.Call.Args[2]); ok {
+				ws = append(ws, fmt.Sprint(k))
+			} else if vals, ok := constTableField(cl.Call.Args[2]); ok && inLoop(cl.Block()) {
+				// table-driven: one WriteUint in a range loop over a local table of (value, width) rows
+				for _, k := range vals {
+					ws = append(ws, fmt.Sprint(k))
+				}
+			} else {
+				ws = append(ws, "?")
+			}
 		}
 		rd := int64(-1)
 		for _, cl := range callsTo(f, bocPath+".Cell.ReadUint") {
